@@ -210,3 +210,12 @@ func (s *Sim) QueryTouched(bz []byte) {
 		}
 	}
 }
+
+// SenderOf returns the sender address of transaction bytes (nil if undecodable).
+func SenderOf(bz []byte) []byte {
+	tx := &ctrlertypes.Trx{}
+	if tx.Decode(bz) != nil || len(tx.From) != 20 {
+		return nil
+	}
+	return tx.From
+}
